@@ -390,3 +390,82 @@ func (r *runner) scenarioBoundary() {
 // setForkConfig selects the proposal schedule a scenario runs under; the only flags read
 // on the state path are Proposal002 (AddFT/SubFT journal their write or not) and IsSub.
 func setForkConfig(p002 uint64) { common.LocalChainConfig.Proposal002Block = p002 }
+
+// ---- object-level commit model (Model/StateCommit.lean) by correspondence
+
+// objFlag: what AccountDB.Commit sees of one account object, as far as the exported API and the
+// harness's own bookkeeping determine it.
+type objFlag struct {
+	a                      common.Address
+	suicided, dirty, empty bool
+}
+
+// objectFlags is evaluated right before state.Commit for the accounts whose dirty flag the harness
+// knows for certain: only looked at (clean), or SetNonce/IncreaseNonce/SetCode outside every frame
+// (dirty), or self-destructed.  Accounts that are not held as objects (Exist false) are skipped.
+func (w *world) objectFlags(adb *account.AccountDB) []objFlag {
+	if w.objSet == nil {
+		return nil
+	}
+	var as []common.Address
+	for a := range w.looked {
+		as = append(as, a)
+	}
+	for a := range w.strong0 {
+		if !w.looked[a] {
+			as = append(as, a)
+		}
+	}
+	sort.Slice(as, func(i, j int) bool { return bytes.Compare(as[i][:], as[j][:]) < 0 })
+	var out []objFlag
+	for _, a := range as {
+		if a == tokenContract || len(out) >= 12 {
+			continue
+		}
+		a := a
+		hx.Guard(func() string {
+			if !adb.Exist(a) {
+				return ""
+			}
+			sui := adb.HasSuicided(a)
+			switch {
+			case sui:
+				out = append(out, objFlag{a, true, true, adb.Empty(a)})
+			case !w.objSet[a]:
+				out = append(out, objFlag{a, false, false, adb.Empty(a)})
+			case w.strong0[a]:
+				out = append(out, objFlag{a, false, true, adb.Empty(a)})
+			}
+			return ""
+		})
+	}
+	return out
+}
+
+func b01(b bool) int {
+	if b {
+		return 1
+	}
+	return 0
+}
+
+// emitObjects: one `obj` op per account; the implementation's answer is what an independent walk of the
+// account trie shows for that address before and after the commit.
+func (w *world) emitObjects(objs []objFlag, diskBefore map[string][]byte, base common.Hash, diskAfter map[string][]byte, root common.Hash) {
+	for _, o := range objs {
+		before, ok1 := indepGet(diskBefore, base, o.a[:])
+		after, ok2 := indepGet(diskAfter, root, o.a[:])
+		if !ok1 || !ok2 {
+			continue
+		}
+		ans := "kept-changed"
+		switch {
+		case len(after) == 0:
+			ans = "gone"
+		case bytes.Equal(before, after):
+			ans = "kept-same"
+		}
+		w.r.out.Emit(fmt.Sprintf("obj %d %d %d 1", b01(o.suicided), b01(o.dirty), b01(o.empty)), ans)
+		w.r.stats[fmt.Sprintf("obj_s%d_d%d_e%d_%s", b01(o.suicided), b01(o.dirty), b01(o.empty), ans)]++
+	}
+}
